@@ -192,6 +192,7 @@ type Env struct {
 	lastForeign string
 	heldVer  *integrity.Verifier      // a Verifier kept across operations (vhold / vheld)
 	heldRes  []integrity.VerifyResult // what its callback was handed during the latest Verify
+	signing  bool           // a sign operation is in progress (slowSmallReads)
 	faultCtl bool           // interpose the controllable recorder (as crashCtl) without the C09 crash oracle
 	desync   bool           // an injected store failure left handle and file apart; cleared by the next successful modification
 	crashCtl bool           // C09: interpose a controllable recorder on every backing store
@@ -818,7 +819,9 @@ func (e *Env) applyCore(op *Op) []string {
 		if e.f == nil {
 			return []string{"noimg"}
 		}
+		e.signing = true
 		ls, blobs, nows, now, fp, _ := e.doSignT(op.S)
+		e.signing = false
 		op.Blobs, op.Nows, op.Now, op.FP = blobs, nows, now, fp
 		return ls
 	case "resign":
@@ -1346,4 +1349,20 @@ func dirtyCap(b []byte) []byte {
 		spare[i] = 0xAA
 	}
 	return out
+}
+
+// slowSmallReads: a backing store on which short reads are slow while the image is being signed
+// (a store with per-request latency: small objects cost as much as a chunk of a big one).  Used
+// by the second run of C12's histories that hold an object of a megabyte or more, so that the two
+// runs differ in the relative timing of reading small and large objects, not only in clock and backend.
+type slowSmallReads struct {
+	sif.ReadWriter
+	on *bool
+}
+
+func (s slowSmallReads) ReadAt(p []byte, off int64) (int, error) {
+	if *s.on && len(p) < 4096 {
+		time.Sleep(2 * time.Millisecond)
+	}
+	return s.ReadWriter.ReadAt(p, off)
 }
